@@ -23,8 +23,31 @@ let sexp_of_lit = function
   | LChar c -> L [A "c"; A (string_of_z c)]
   | LUndef -> L [A "n"]
 
+(* expression trees as the harness prints them from the parser's syntax tree *)
+let rec oexpr_of_sexp (s : Sexp.t) : oexpr =
+  match s with
+  | L [A "l"; v] -> OLit (lit_of_sexp v)
+  | L [A "v"; A i] -> OVar (C03.nat_of_int (int_of_string i))
+  | L [A "bin"; A t; a; b] -> OBin (C15.tok_of_atom t, oexpr_of_sexp a, oexpr_of_sexp b)
+  | L [A "eq"; a; b] -> OEq (oexpr_of_sexp a, oexpr_of_sexp b)
+  | L [A "ne"; a; b] -> ONe (oexpr_of_sexp a, oexpr_of_sexp b)
+  | L [A "un"; A t; a] -> OUn (C15.tok_of_atom t, oexpr_of_sexp a)
+  | L [A "and"; a; b] -> OAnd (oexpr_of_sexp a, oexpr_of_sexp b)
+  | L [A "or"; a; b] -> OOr (oexpr_of_sexp a, oexpr_of_sexp b)
+  | L [A "cond"; c; a; b] -> OCond (oexpr_of_sexp c, oexpr_of_sexp a, oexpr_of_sexp b)
+  | L [A "other"; A i] -> OOther (z_of_string i)
+  | _ -> failwith ("bad expression " ^ Sexp.to_string s)
+
 let run (kind : string) (args : Sexp.t list) : Sexp.t =
   match kind, args with
+  | "optexpr", [before; L [A "after"; after]] ->
+    let e = oexpr_of_sexp before in
+    if fold_ok e (oexpr_of_sexp after) then L [A "b"; A "1"]
+    else if fold_inconclusive e then L [A "inconclusive"] else L [A "b"; A "0"]
+  | "optexpr", [before; L [A "refused"]] ->
+    let e = oexpr_of_sexp before in
+    if const_error e then L [A "justified"; A "1"]
+    else if fold_inconclusive e then L [A "inconclusive"] else L [A "justified"; A "0"]
   | "foldbin", [A t; a; b] ->
     (match fold_binop (C15.tok_of_atom t) (lit_of_sexp a) (lit_of_sexp b) with
      | Some e -> L [A "fold"; sexp_of_lit e] | None -> L [A "nofold"])
